@@ -153,7 +153,8 @@ INFO["C11"] = {
     "bounds": "BOUNDED CLAIM on enumerated layouts - (a) the real elf::load on three concrete 520-byte ELF32-BE layout skeletons ([LOAD, NOTE, LOAD] with a gap after the first segment, "
               "[LOAD, LOAD, NOTE], and [LOAD, NOTE, LOAD] with the second segment starting exactly where the first segment and .got end; six "
               "shuffled section headers, .got of two entries at the end of the first segment, .symtab, .stack) with ALL segment content bytes (24), both GOT entry values (all 2^64 "
-              "pairs, sums wrapping modulo 2^32 included) and the ___exit value symbolic: segment bytes at base + p_vaddr, bss / gap / neighbouring bytes zero (enumerated probes), GOT "
+              "pairs, sums wrapping modulo 2^32 included) and the ___exit value symbolic: segment bytes at base + p_vaddr, bss / gap / neighbouring bytes zero (enumerated probes in every harness; in c11_load_zero_fill_symbolic_probe_v0 additionally ONE probe at a SYMBOLIC "
+              "offset of the modelled DRAM prefix H'400000-H'417FFF: every byte that is neither segment file content nor part of the argument block the loader writes reads zero), GOT "
               "entries relocated exactly once (big-endian, modulo 2^32), on-chip RAM / vector area / I/O registers untouched (enumerated probes); (b) the three record parsers on their own "
               "over fully symbolic bytes: every field of the ELF header (52 bytes), of two program headers (64 bytes) and of two section headers (80 bytes) equals the big-endian value at "
               "the ELF32 specification's offset, for all byte values",
